@@ -114,6 +114,18 @@ def prep_oracle(rng):
     scale, off = rng.choice([1e-3, 1.0, 250.0]), rng.choice([-40.0, 0.0, 7.5])
     X = np.array([[rng.random() * scale + off for _ in range(d)] for _ in range(n)])
     X2 = X[: max(1, n // 2)] * 0.5 + X.mean(axis=0) * 0.5          # later data inside the first call's bounds
+    stored_as = "float64"
+    if rng.random() < 0.35:
+        # "all finite real matrices": whole-number data as it is commonly stored (sensor counts in int16, pixel values in
+        # uint8, flags in bool); the column range need not fit the positive half of the dtype
+        dt = rng.choice([np.int8, np.int16, np.uint8, np.int32, bool])
+        lo_, hi_ = {np.int8: (-120, 121), np.int16: (-30000, 30001), np.uint8: (3, 251), np.int32: (-2 * 10 ** 9, 2 * 10 ** 9), bool: (0, 2)}[dt]
+        Xi = np.array([[rng.randrange(lo_, hi_) for _ in range(d)] for _ in range(n)])
+        Xi[0, :], Xi[1, :] = lo_, hi_ - 1
+        X = Xi.astype(dt)
+        X2 = X[[0, 1, 2]]
+        scale, off = float(hi_ - lo_), 0.0
+        stored_as = np.dtype(dt).name
     fz = lambda: artlib.FuzzyART(0.5, 1e-3, 1.0)
     with contextlib.redirect_stdout(io.StringIO()):
         est = {"Fuzzy": fz, "Hyper": lambda: artlib.HypersphereART(0.5, 1e-3, 1.0, 1.0), "ART2A": lambda: artlib.ART2A(0.5, 0.1, 1.0),
@@ -122,7 +134,8 @@ def prep_oracle(rng):
                "ARTMAP": lambda: artlib.ARTMAP(fz(), fz()), "Fusion": lambda: artlib.FusionART([fz(), fz()], [0.5, 0.5], [2 * d, 2 * d]),
                "SMART": lambda: artlib.SMART(artlib.FuzzyART, [0.2, 0.6], {"alpha": 1e-3, "beta": 1.0}),
                "CVIART": lambda: artlib.CVIART(fz(), 1)}[name]()
-    rep = {"estimator": name, "X": X.tolist()}
+    rep = {"estimator": name, "X": X.tolist(), "dtype": stored_as}
+    Xf = X.astype(float)
 
     def f(sig, what):
         return {"signature": f"{name}/{sig}", "text": what, "replay": rep}
@@ -144,7 +157,7 @@ def prep_oracle(rng):
             return f("prepare-range", "prepare_data left the unit cube")
         if name in ("Fuzzy", "DualVig", "Topo", "SimpleARTMAP", "SMART", "CVIART") and np.asarray(P).shape[1] != 2 * d:
             return f("prepare-width", "Fuzzy-based prepare_data did not double the width")
-        if not np.allclose(R, X, rtol=1e-9, atol=1e-9 * scale):
+        if not np.allclose(np.asarray(R, dtype=float), Xf, rtol=1e-9, atol=1e-9 * scale):
             return f("restore", "restore_data(prepare_data(X)) != X")
         if name not in ("SMART", "ARTMAP", "SimpleARTMAP"):
             mod.validate_data(np.asarray(Pv))
@@ -153,19 +166,21 @@ def prep_oracle(rng):
         # later data re-use the first call's bounds
         if name not in ("ARTMAP", "Fusion"):
             P2 = est.prepare_data(X2)
-            lo, hi = X.min(axis=0), X.max(axis=0)
-            want = (X2 - lo) / (hi - lo)
+            lo, hi = Xf.min(axis=0), Xf.max(axis=0)
+            want = (X2.astype(float) - lo) / (hi - lo)
             got = np.asarray(P2)[:, :d]
             if not np.allclose(got, want, atol=1e-9):
                 return f("reuse-bounds", "a later prepare_data call did not re-use the first call's column bounds")
             # ... also for later data that leaves those bounds: same affine map, still inverted by restore_data
-            lo, hi = X.min(axis=0), X.max(axis=0)
-            X3 = np.vstack([lo - 0.25 * (hi - lo), hi + 0.5 * (hi - lo), X[0]])
+            lo, hi = Xf.min(axis=0), Xf.max(axis=0)
+            X3 = np.vstack([lo - 0.25 * (hi - lo), hi + 0.5 * (hi - lo), Xf[0]])
+            if stored_as == "uint8":
+                X3 = np.vstack([[1] * d, [254] * d, X[0]]).astype(np.uint8)       # below the first minimum, above the first maximum
             rep["later_batch_outside_the_first_bounds"] = X3.tolist()
             P3 = np.asarray(est.prepare_data(X3))
-            if not np.allclose(P3[:, :d], (X3 - lo) / (hi - lo), atol=1e-9):
+            if not np.allclose(P3[:, :d], (X3.astype(float) - lo) / (hi - lo), atol=1e-9):
                 return f("reuse-bounds", "a later prepare_data call (data outside the first bounds) did not apply the first call's column bounds")
-            if not np.allclose(est.restore_data(P3), X3, rtol=1e-9, atol=1e-9 * scale):
+            if not np.allclose(np.asarray(est.restore_data(P3), dtype=float), X3.astype(float), rtol=1e-9, atol=1e-9 * scale):
                 return f("restore", "restore_data does not invert prepare_data on a later batch outside the first bounds")
         # normalisation and complement coding individually, on arbitrary finite matrices
         from artlib.common.utils import compliment_code, de_compliment_code, normalize, de_normalize
